@@ -6,8 +6,10 @@
    and the same value for EVERY named assignment (child state, parent states) — for any number, order and
    cardinalities of parents. *)
 From Coq Require Import List Arith Bool PeanoNat.
-From PV Require Import C09.RavelLocal C09.Model C09.Proofs C09.Tokens.
+From Coq Require Import QArith Qabs Sorting.Sorted Ascii.
+From PV Require Import C09.RavelLocal C09.Model C09.Proofs C09.Tokens C09.Proofs2 C09.Round C09.Names.
 Import ListNotations.
+Close Scope Q_scope.
 
 (* BIF: reading back what BIFWriter lays out returns the same model.  Needs distinct state names per variable:
    the reader finds the row of a parent configuration by its tuple of state NAMES. *)
@@ -68,3 +70,73 @@ Lemma number_grammars_upto24_l : forall s, shape_within 24 s ->
   uai_ok (render s) = true /\ bif_net_ok (render s) = true /\ xmlbif_ok (render s) = true.
 Proof. exact number_grammars_upto24. Qed.
 
+
+(* UAI (Markov network): the factors come back in the same order, each with its scope renamed by the numbering
+   (same cardinalities, same order) and the same values in the same order; the numbering is injective on the
+   variables that occur *)
+Lemma uai_markov_roundtrip_l : forall (A : Type) (m : mn A), wf_mn m ->
+  let num := uai_num (uai_variables (uai_domain_mn m)) in
+  uai_read_mn (uai_write_mn m) = Some (map (renum_factor num) m) /\
+  (forall v1 c1 v2 c2, In (v1, c1) (scope_pairs m) -> In (v2, c2) (scope_pairs m) -> num v1 = num v2 -> v1 = v2).
+Proof.
+  intros A m Hwf num. split; [now apply uai_mn_roundtrip|]. intros v1 c1 v2 c2. now apply uai_mn_num_inj.
+Qed.
+
+(* the numbered variable list IS sorted by (str(card), name): every earlier entry is <= every later one, where
+   str(card) is the decimal digit list compared as python compares strings ("10" < "2") -- Model.uai_key_leb *)
+Lemma uai_variable_numbering_sorted_l : forall dom : list (var * nat),
+  StronglySorted (fun a b => uai_key_leb a b = true) (uai_variables dom) /\
+  (forall a b, uai_key_leb a b = true <->
+      (digits (snd a) = digits (snd b) /\ fst a <= fst b) \/
+      (digits (snd a) <> digits (snd b) /\ lex_leb (digits (snd a)) (digits (snd b)) = true)).
+Proof.
+  intros dom. split; [apply uai_variables_sorted|]. intros a b. unfold uai_key_leb.
+  destruct (list_eqb (digits (snd a)) (digits (snd b))) eqn:E.
+  - apply list_eqb_eq in E. rewrite PeanoNat.Nat.leb_le. split; [intros H; left; auto|].
+    intros [[_ H]|[H _]]; [exact H|contradiction].
+  - apply list_eqb_false in E. split; [intros H; right; auto|].
+    intros [[H _]|[_ H]]; [contradiction|exact H].
+Qed.
+
+(* NET, explicit: reading back what NETWriter lays out gives exactly the model (CPDs in name order) with every
+   table entry replaced by its rounding *)
+Lemma net_roundtrip_explicit_l : forall (A : Type) (d : A) (rnd : A -> A) (m : bn A), wf_bn m ->
+  net_read d (net_write d rnd m) = Some (map (rounded rnd) (sort_by (@child_leb A) m)) /\
+  (forall c, table (rounded rnd c) = map rnd (table c) /\ child (rounded rnd c) = child c /\
+             cstates (rounded rnd c) = cstates c /\ parents (rounded rnd c) = parents c).
+Proof.
+  intros A d rnd m Hwf. split; [now apply net_roundtrip|]. intros c. repeat split.
+Qed.
+
+(* the concrete rounding (numpy round(x, 4): half to even on x * 10^4) over exact rationals moves a value by at
+   most 0.5e-4 *)
+Lemma net_round4_error_l : forall x : Q, (Qabs (round4 x - x) <= 1 # 20000)%Q.
+Proof.
+  exact round4_error.
+Qed.
+
+(* token layer, names (BIF, after the repairs): at no offset k inside an identifier-like name n written at any of
+   BIFWriter's name positions (right context r, left neighbour l) does the variable-block regex or the
+   table/default keyword + number match -- whether n equals a keyword, contains one or not *)
+Lemma bif_names_not_headers_l : forall (n r : str) (l : option ascii) (k : nat),
+  ident n -> bif_ctx r -> k < List.length n ->
+  var_hdr_at (prev_at l n k) (skipn k n ++ r) = false /\
+  kw_num_at kw_table (prev_at l n k) (skipn k n ++ r) = false /\
+  kw_num_at kw_default (prev_at l n k) (skipn k n ++ r) = false.
+Proof.
+  exact bif_names_not_headers.
+Qed.
+
+(* token layer, names (NET, after the repairs): no identifier-like name at any of NETWriter's name positions is
+   taken for a node declaration *)
+Lemma net_names_not_declarations_l : forall (n r : str) (l : option ascii) (k : nat),
+  ident n -> net_ctx r -> k < List.length n ->
+  node_decl_at (prev_at l n k) (skipn k n ++ r) = false.
+Proof.
+  exact net_names_not_declarations.
+Qed.
+
+(* ... nor does the probability-block regex (which has no look-behind) match at any offset inside a name *)
+Lemma bif_names_not_probability_headers_l : forall (n r : str) (k : nat),
+  ident n -> bif_ctx r -> k < List.length n -> prob_hdr_at (skipn k n ++ r) = false.
+Proof. exact bif_names_not_probability_headers. Qed.
